@@ -80,6 +80,7 @@ class Issuer:
         self.reach = cg.reachable_from(self.g, [ISSUE])
         self.fns = [fx.fns[n] for n in sorted(self.reach) if not fx.fns[n].is_macro_generated()]
         self.disc_new = fx.fn(DISC_NEW)
+        self.disc_ctors = set(n for n, f in fx.fns.items() if not f.is_macro_generated() and (f.raw.get("ret_ty") or "") == "disclosure::SDJWTDisclosure")
         # object builder: inserts the constant key "_sd" with an Array value built from a local Vec<String>
         self.obj_builder = None
         self.sd_insert = None
@@ -132,11 +133,11 @@ class Issuer:
 
     def is_disclosure_hash(self, v):
         v = peel(v)
-        return v.kind == "field" and v.d.get("name") == "hash" and peel(v.kids[0]).kind == "call" and peel(v.kids[0]).d["term"].get("resolved") == DISC_NEW
+        return v.kind == "field" and v.d.get("name") == "hash" and peel(v.kids[0]).kind == "call" and peel(v.kids[0]).d["term"].get("resolved") in self.disc_ctors
 
     def decoy_fn_of(self, v):
         v = peel(v)
-        if v.kind == "call" and v.d["term"].get("resolved_local") and v.d["term"].get("resolved") in self.fx.fns and v.d["term"].get("resolved") != DISC_NEW:
+        if v.kind == "call" and v.d["term"].get("resolved_local") and v.d["term"].get("resolved") in self.fx.fns and v.d["term"].get("resolved") not in self.disc_ctors:
             return self.fx.fns[v.d["term"]["resolved"]]
         return None
 
@@ -159,3 +160,48 @@ def salt_generator(fx, disc_new):
 
 def fmt_first_args_all(fn):
     return salt_generator(None, fn)
+
+
+def text_sites(fx):
+    """[(fn, bb, format_call_node, pieces)] for every format! whose template starts with `["` (the disclosure text), in any hand-written fn"""
+    out = []
+    for name, fn in sorted(fx.fns.items()):
+        if fn.is_macro_generated() or not name.startswith("disclosure::"):
+            continue
+        fv = vals(fn)
+        for b, t in fn.calls():
+            if t.get("resolved") == "std::fmt::format":
+                n = fv.call_node(b)
+                pcs = common.fmt_pieces(n)
+                if pcs and pcs[0][0] == "lit" and pcs[0][1].startswith('["'):
+                    out.append((fn, b, n, pcs))
+    return out
+
+
+def callers_of(fx, fn):
+    out = []
+    for name, caller in fx.fns.items():
+        if caller.is_macro_generated():
+            continue
+        cv = None
+        for b, t in caller.calls():
+            if t.get("resolved") == fn.name:
+                cv = cv or vals(caller)
+                out.append((caller, b, cv.call_node(b)))
+    return out
+
+
+def resolve_through_params(fx, fn, node, depth=0):
+    """[(host_fn, node)]: follow a value that is (an alias of) a parameter of fn back to the arguments at every call site"""
+    p = peel(node)
+    if p.kind == "param" and p.fn is fn and depth < 4:
+        out = []
+        cs = callers_of(fx, fn)
+        if not cs:
+            return [(fn, p)]
+        for (caller, b, cn) in cs:
+            i = p.d["idx"] - 1
+            if i < len(cn.kids):
+                out.extend(resolve_through_params(fx, caller, cn.kids[i], depth + 1))
+        return out
+    return [(fn, p)]
